@@ -283,6 +283,11 @@ func (pc *provCache) callResult(c *ssa.Call) ProvSet {
 	} else {
 		s["call:?"] = true
 	}
+	if body := pc.p.body(c.Common().StaticCallee()); body != nil {
+		for k := range pc.p.retVia(body) {
+			s[k] = true
+		}
+	}
 	for _, a := range callOperands(c.Common()) {
 		s.addAll(pc.prov(a))
 	}
@@ -456,4 +461,42 @@ func itoa(i int) string {
 		b = append([]byte{'-'}, b...)
 	}
 	return string(b)
+}
+
+// retVia summarises what an in-module function's results derive from, as
+// "via:<callee>" items (one per call whose result flows into a returned value,
+// transitively through in-module callees).
+func (p *Prog) retVia(fn *ssa.Function) ProvSet {
+	if p.viaMemo == nil {
+		p.viaMemo = map[*ssa.Function]ProvSet{}
+		p.viaBusy = map[*ssa.Function]bool{}
+	}
+	if s, ok := p.viaMemo[fn]; ok {
+		return s
+	}
+	if p.viaBusy[fn] {
+		return ProvSet{}
+	}
+	p.viaBusy[fn] = true
+	out := ProvSet{}
+	pc := newProvCache(p, fn)
+	for _, b := range fn.Blocks {
+		ret, ok := b.Instrs[len(b.Instrs)-1].(*ssa.Return)
+		if !ok {
+			continue
+		}
+		for i := range ret.Results {
+			for k := range pc.prov(returnValue(ret, i)) {
+				switch {
+				case strings.HasPrefix(k, "call:"):
+					out["via:"+strings.TrimPrefix(k, "call:")] = true
+				case strings.HasPrefix(k, "via:"):
+					out[k] = true
+				}
+			}
+		}
+	}
+	delete(p.viaBusy, fn)
+	p.viaMemo[fn] = out
+	return out
 }
